@@ -760,6 +760,10 @@ func kindMusigBadNonce(f *failer) {
 
 func musigKeyTriples() [][]named {
 	t := [][]named{{{"3", big.NewInt(3)}, {"1", big.NewInt(1)}, {"n-2", nM2}}}
+	// a key together with its negation (d and n-d share the x coordinate):
+	// BIP327 compares the 33-byte plain keys, so they are DIFFERENT keys
+	nM3 := new(big.Int).Sub(refec.N, big.NewInt(3))
+	t = append(t, []named{{"3", big.NewInt(3)}, {"n-3", nM3}, {"1", big.NewInt(1)}})
 	if R.Thorough() {
 		t = append(t, []named{{"drvA", derivedScalar("musig-A")}, {"drvB", derivedScalar("musig-B")}, {"drvC", derivedScalar("musig-C")}})
 	}
@@ -841,6 +845,9 @@ func genMusigCases(bounds map[string]interface{}) []Case {
 		blocks = append(blocks, fmt.Sprintf("%s: %d cases", what, len(cases)-n0))
 	}
 	taps := []string{"bip86", "root:" + hx(sha("c11/script-root"))}
+	// a key and its negation in one signer set (always the second triple)
+	emit(triples[1], keyLists(3), tweakChains(0, 1), nil, msgMain,
+		"keys {3,n-3,1} (a key and its negation): all 39 lists of length 1..3 x sort{0,1} x 3 tweak chains of length <= 1")
 	if !R.Thorough() {
 		emit(triples[0], keyLists(4), tweakChains(0, 2), nil, msgMain,
 			"keys {3,1,n-2}: all 120 lists of length 1..4 (duplicates, every order) x sort{0,1} x all 7 tweak chains of length <= 2 over {plain,x-only}")
